@@ -510,14 +510,17 @@ Qed.
 
 (* the roots of the call *)
 Definition is_call_root (r : node) : Prop :=
-  if ext then In r (succ' g (c_root c)) else r = c_root c.
+  if ext then In r (succ' g (c_root c)) else (r = c_root c \/ In r (c_xroots c)).
 
 Lemma guard_roots_done st r : ret_ok_guard g c ext st = true -> is_call_root r -> ph st r = Done.
 Proof.
   unfold ret_ok_guard, is_call_root. destruct ext; intros H Hr.
   - apply andb_true_iff in H as [H _]. apply andb_true_iff in H as [_ H].
     eapply forallb_done; eauto.
-  - subst. apply andb_true_iff in H as [H _]. destruct (ph st (c_root c)); simpl in H; congruence.
+  - apply andb_true_iff in H as [H Hxr]. apply andb_true_iff in H as [H _].
+    destruct Hr as [->|Hr].
+    + destruct (ph st (c_root c)); simpl in H; congruence.
+    + eapply forallb_done; eauto.
 Qed.
 
 Lemma fclosure tr fs :
@@ -575,7 +578,7 @@ Qed.
 Definition g_sh : graph :=
   mkGraph 5 (fun n => match n with 2 => [0; 1] | 3 => [0] | 4 => [2; 3] | _ => [] end)
           (fun _ => false) (fun n => Nat.leb 2 n) (fun n => n).
-Definition c_sh : cfg := mkCfg 3 MGraph 4 false true [].
+Definition c_sh : cfg := mkCfg 3 MGraph 4 false true [] [].
 Definition tr_sh1 : list fevent :=
   [Ev (ExB 4); Ev (ExE 4 false); Ev (SFB 4); Ev (SFE 4); Ev (SFC 4);
    Ev (ExB 2); Ev (ExB 3); Ev (ExE 2 false); Ev (ExE 3 false);
@@ -616,7 +619,7 @@ Qed.
 Definition g_x : graph :=
   mkGraph 4 (fun n => match n with 1 => [0] | 2 => [0] | 3 => [1; 2] | _ => [] end)
           (fun _ => false) (fun n => Nat.leb 1 n && Nat.leb n 2) (fun n => n).
-Definition c_x : cfg := mkCfg 2 MGraph 3 false true [].
+Definition c_x : cfg := mkCfg 2 MGraph 3 false true [] [].
 Definition tr_x1 : list fevent :=
   [ProOk; ProOk; ProOk; Ev (ExB 1); Ev (ExB 2); Ev (ExE 1 false); Cancel; Ev (ExE 2 false);
    Ev (SFB 1); Ev (SFE 1); Ev (SFC 1); Ev (Ret false)].
@@ -681,11 +684,13 @@ Proof.
         split; [reflexivity | repeat split; assumption].
       * unfold step. rewrite Hret. rewrite Hs. reflexivity.
   - (* Ret *)
-    destruct ok.
+    match goal with |- context [if ?b then _ else _] => is_var b; destruct b end.
     + unfold ret_ok_guard.
       destruct (is_done (ph (fb fs) (c_root c)) &&
-                forallb (fun n => is_idle_or_done (ph (fb fs) n)) (seq 0 (g_n g))) eqn:Hg.
-      * apply andb_true_iff in Hg as [_ Hf]. rewrite Ht, (forallb_no_dead g _ Hf). simpl.
+                forallb (fun n => is_idle_or_done (ph (fb fs) n)) (seq 0 (g_n g)) &&
+                forallb (fun r => is_done (ph (fb fs) r)) (c_xroots c)) eqn:Hg.
+      * apply andb_true_iff in Hg as [Hg _]. apply andb_true_iff in Hg as [_ Hf].
+        rewrite Ht, (forallb_no_dead g _ Hf). simpl.
         eexists. split; [reflexivity|]. split; [reflexivity | repeat split; assumption].
       * now rewrite andb_false_r.
     + rewrite Ht. unfold any_dead.
